@@ -16,3 +16,30 @@ func VerifExecTask(task *Task) {
 	}
 	p.execTask(task)
 }
+
+// VerifNewPool is a worker pool without its dispatcher goroutine: Submit is the real one (the task
+// queue, the rejection on a done context or a stopped pool), VerifRunQueued plays the dispatcher /
+// worker (real execTask) for whatever was queued.
+func VerifNewPool(stopped bool, queue int) Pool {
+	p := &workerPool{
+		tasks:      make(chan *Task, queue),
+		statistics: metrics.NewConcurrentStatistics("verif", linmetric.BrokerRegistry),
+		logger:     logger.GetLogger("Verif", "Pool"),
+	}
+	p.stopped.Store(stopped)
+	return p
+}
+
+func VerifRunQueued(pool Pool) int {
+	p := pool.(*workerPool)
+	n := 0
+	for {
+		select {
+		case t := <-p.tasks:
+			p.execTask(t)
+			n++
+		default:
+			return n
+		}
+	}
+}
